@@ -681,3 +681,14 @@ M("c07-processed-pairs-offered-again", "C07", "cola/libcola/cc_nonoverlapconstra
   "    if (info.processed)\n    {", "    if (false && info.processed)\n    {", mention=["IDLE-AXIS-REPORTED"])
 M("c14-core-alignments-kept", "C14", "cola/libdialect/hola.cpp", "                coreMatrix.free(s, t);", "                (void) coreMatrix;", mention=["RETURNED-ALIGNMENTS"])
 M("c14-middle-child-always-aligned", "C14", "cola/libdialect/trees.cpp", "        if (std::fabs(offset) > 1e-6) continue;", "        (void) offset;", mention=["RETURNED-ALIGNMENTS"])
+
+# ---------------------------------------------------------------- reverts (round e)
+M("c12-results-index-against-cleared-inputs", "C12", "cola/libavoid/hyperedge.cpp",
+  "    COLA_ASSERT(index < m_new_junctions_vector.size());", "    COLA_ASSERT(index <= count());", mention=["RESULTS-READABLE"])
+M("c12-results-wrong-list", "C12", "cola/libavoid/hyperedge.cpp",
+  "    result.deletedConnectorList = m_deleted_connectors_vector[index];", "    result.deletedConnectorList = m_deleted_connectors_vector[0];",
+  mention=["RESULTS-READABLE"])
+M("c12-leaf-role-lost", "C12", "cola/libavoid/hyperedgeimprover.cpp",
+  "                        self->isConnectorSource = other->isConnectorSource;\n", "", mention=["ZERO-LENGTH-EDGES", "SOURCE"])
+M("c12-neutral-results-assert-other-vector", "C12", "cola/libavoid/hyperedge.cpp",
+  "    COLA_ASSERT(index < m_new_junctions_vector.size());", "    COLA_ASSERT(index < m_deleted_connectors_vector.size());", expect="silent")
